@@ -106,6 +106,25 @@ func (st LString) Format(f fmt.State, c rune) {
 		} else {
 			defaultFormat(string(st), f, 's')
 		}
+	case 'q':
+		// Lua 5.1 quoting (lstrlib.c addquoted): a form the Lua reader turns
+		// back into the same bytes; Go's %q writes \x, \u escapes Lua lacks
+		buf := make([]byte, 0, len(st)+2)
+		buf = append(buf, '"')
+		for i := 0; i < len(st); i++ {
+			switch b := st[i]; b {
+			case '"', '\\', '\n':
+				buf = append(buf, '\\', b)
+			case '\r':
+				buf = append(buf, '\\', 'r')
+			case 0:
+				buf = append(buf, '\\', '0', '0', '0')
+			default:
+				buf = append(buf, b)
+			}
+		}
+		buf = append(buf, '"')
+		f.Write(buf)
 	default:
 		defaultFormat(string(st), f, c)
 	}
